@@ -335,6 +335,8 @@ func GenCase(property string, seed uint64, tier Tier) *Case {
 		return genC01(seed, tier)
 	case "C03":
 		return genC03(seed, tier)
+	case "C05":
+		return genC05Retention(seed, tier)
 	case "C07":
 		return genC07(seed, tier)
 	case "C08":
